@@ -2,6 +2,7 @@ package world
 
 import (
 	"fmt"
+	"math"
 	"sort"
 	"time"
 
@@ -60,6 +61,14 @@ func DrawConfig(rt *rapid.T, p *Profile) Config {
 		}
 		if g == defaultAt {
 			o.Name = controller.DefaultNodeGroup
+		} else if rapid.IntRange(0, 7).Draw(rt, "oddName") == 0 {
+			// only the exact name "default" is the default group; these are ordinary labelled groups
+			o.Name = rapid.SampledFrom([]string{"Default", "DEFAULT", "default-pool", "defaults", "default "}).Draw(rt, "name") + fmt.Sprint(g)[:0]
+			for _, prev := range cfg.Groups {
+				if prev.Opts.Name == o.Name {
+					o.Name = fmt.Sprintf("grp%d", g)
+				}
+			}
 		}
 		// thresholds 0 < L < U < S
 		var L, U, S int
@@ -75,6 +84,12 @@ func DrawConfig(rt *rapid.T, p *Profile) Config {
 		o.TaintLowerCapacityThresholdPercent, o.TaintUpperCapacityThresholdPercent, o.ScaleUpThresholdPercent = L, U, S
 		o.SlowNodeRemovalRate = rapid.IntRange(0, 4).Draw(rt, "slow")
 		o.FastNodeRemovalRate = o.SlowNodeRemovalRate + rapid.IntRange(0, 6).Draw(rt, "fastGap")
+		if !p.NoNegRates && rapid.IntRange(0, 11).Draw(rt, "hugeRates") == 0 { // "remove everything you may": rates far above any node count
+			o.FastNodeRemovalRate = rapid.SampledFrom([]int{1000, math.MaxInt32, math.MaxInt64 - 1, math.MaxInt64}).Draw(rt, "fastHuge")
+			if rapid.Bool().Draw(rt, "slowHugeToo") {
+				o.SlowNodeRemovalRate = o.FastNodeRemovalRate
+			}
+		}
 		var soft, hard, cd int
 		if p.SmallGraces {
 			soft = rapid.SampledFrom([]int{1, 2, 30, 60}).Draw(rt, "soft")
@@ -85,9 +100,21 @@ func DrawConfig(rt *rapid.T, p *Profile) Config {
 			hard = soft + rapid.IntRange(1, 3600).Draw(rt, "hardGap")
 			cd = rapid.IntRange(1, 900).Draw(rt, "cooldown")
 		}
-		o.SoftDeleteGracePeriod = fmt.Sprintf("%ds", soft)
-		o.HardDeleteGracePeriod = fmt.Sprintf("%ds", hard)
-		o.ScaleUpCoolDownPeriod = fmt.Sprintf("%ds", cd)
+		// spellings: whole seconds, or a sub-second remainder in either notation (1.9s, 1900ms, 2m0.5s)
+		spell := func(sec int, label string) string {
+			switch rapid.IntRange(0, 9).Draw(rt, label+"Spelling") {
+			case 0:
+				return fmt.Sprintf("%d.%ds", sec, rapid.SampledFrom([]int{5, 9, 25}).Draw(rt, label+"Frac"))
+			case 1:
+				return fmt.Sprintf("%dms", sec*1000+rapid.SampledFrom([]int{1, 500, 999}).Draw(rt, label+"Ms"))
+			case 2:
+				return (time.Duration(sec)*time.Second + 500*time.Millisecond).String()
+			}
+			return fmt.Sprintf("%ds", sec)
+		}
+		o.SoftDeleteGracePeriod = spell(soft, "soft")
+		o.HardDeleteGracePeriod = spell(hard, "hard")
+		o.ScaleUpCoolDownPeriod = spell(cd, "cd")
 		o.TaintEffect = v1.TaintEffect(rapid.SampledFrom([]string{"", "NoSchedule", "NoExecute", "PreferNoSchedule"}).Draw(rt, "effect"))
 		switch p.Dry {
 		case 1:
@@ -281,7 +308,7 @@ func (w *World) drawTargetPods(rt *rapid.T, g int, forceClass ...string) (Action
 		}
 		remC -= c
 		remM -= m
-		ps := PodSpec{Group: g, Via: rapid.SampledFrom([]string{"selector", "affinity"}).Draw(rt, "via"), CPU: c, Mem: m, Split: rapid.IntRange(1, 3).Draw(rt, "split")}
+		ps := PodSpec{Group: g, Via: rapid.SampledFrom(labelVias).Draw(rt, "via"), CPU: c, Mem: m, Split: rapid.IntRange(1, 3).Draw(rt, "split")}
 		if o.Name == controller.DefaultNodeGroup {
 			ps.Via = "none"
 		}
@@ -294,6 +321,13 @@ func (w *World) drawTargetPods(rt *rapid.T, g int, forceClass ...string) (Action
 	}
 	return Action{Op: "setPods", Group: g, Pods: pods}, class + "/" + drive
 }
+
+// how a generated pod names its group
+var labelVias = []string{"selector", "selector", "affinity", "affinityOr", "affinityAnd"}
+var anyVias = []string{"selector", "selector", "affinity", "affinityOr", "affinityAnd", "none", "none"}
+
+// AnnotationValues are the no-delete annotation values operators write (any non-empty value protects).
+var AnnotationValues = []string{"true", "keep for debugging", "", "false", "0", `""`, "''", `"`, " ", "\"rca-1234\"", "no", "\t"}
 
 // podAges: how long ago a generated pod was created (seconds); pods commonly predate their node.
 var podAges = []int64{0, 0, 1, 45, 3600, 400 * 86400}
@@ -317,10 +351,10 @@ func (w *World) timeTargets() []time.Duration {
 		}
 		o := &w.Cfg.Groups[g].Opts
 		if ts, ok := ref.TaintTime(n); ok {
-			add(ts.Add(o.SoftDeleteGracePeriodDuration()))
-			add(ts.Add(o.HardDeleteGracePeriodDuration()))
+			add(ts.Add(Dur(o.SoftDeleteGracePeriod)))
+			add(ts.Add(Dur(o.HardDeleteGracePeriod)))
 		}
-		if age := o.MaxNodeAgeDuration(); age > 0 {
+		if age := Dur(o.MaxNodeAge); age > 0 {
 			add(n.CreationTimestamp.Add(age))
 		}
 	}
@@ -330,7 +364,7 @@ func (w *World) timeTargets() []time.Duration {
 	}
 	sort.Ints(gs)
 	for _, g := range gs {
-		add(w.LockT0[g].Add(w.Cfg.Groups[g].Opts.ScaleUpCoolDownPeriodDuration()))
+		add(w.LockT0[g].Add(Dur(w.Cfg.Groups[g].Opts.ScaleUpCoolDownPeriod)))
 	}
 	return out
 }
@@ -371,13 +405,14 @@ func (w *World) DrawAction(rt *rapid.T, p *Profile) (Action, string) {
 		if len(tt) > 0 && rapid.IntRange(0, 3).Draw(rt, "targeted") > 0 {
 			return Action{Op: "advance", D: rapid.SampledFrom(tt).Draw(rt, "d")}, "advance/targeted"
 		}
-		d := rapid.SampledFrom([]time.Duration{time.Second, 30 * time.Second, 61 * time.Second, 10 * time.Minute, 2 * time.Hour}).Draw(rt, "d")
+		d := rapid.SampledFrom([]time.Duration{time.Second, 30 * time.Second, 61 * time.Second, 10 * time.Minute, 2 * time.Hour,
+			250 * time.Millisecond, 750 * time.Millisecond, 1999 * time.Millisecond, 999999 * time.Microsecond}).Draw(rt, "d")
 		return Action{Op: "advance", D: d}, "advance/free"
 	case "addPods":
 		n := rapid.IntRange(1, 3).Draw(rt, "n")
 		var pods []PodSpec
 		for i := 0; i < n; i++ {
-			ps := PodSpec{Group: g, Via: rapid.SampledFrom([]string{"selector", "affinity", "none"}).Draw(rt, "via"),
+			ps := PodSpec{Group: g, Via: rapid.SampledFrom(anyVias).Draw(rt, "via"),
 				CPU: int64(rapid.IntRange(0, 3000).Draw(rt, "cpu")), Mem: int64(rapid.IntRange(0, 4000).Draw(rt, "memMB")) * 1_000_000,
 				Daemon: rapid.IntRange(0, 4).Draw(rt, "daemon") == 0, Split: rapid.IntRange(1, 2).Draw(rt, "split")}
 			ps.Age = rapid.SampledFrom(podAges).Draw(rt, "podAge")
@@ -437,7 +472,7 @@ func (w *World) DrawAction(rt *rapid.T, p *Profile) (Action, string) {
 			if ng > 1 {
 				ng2 = rapid.IntRange(0, ng-1).Draw(rt, "newGroup")
 			}
-			ps := PodSpec{Group: ng2, Via: rapid.SampledFrom([]string{"selector", "affinity", "none"}).Draw(rt, "via"),
+			ps := PodSpec{Group: ng2, Via: rapid.SampledFrom(anyVias).Draw(rt, "via"),
 				CPU: int64(rapid.IntRange(0, 3000).Draw(rt, "cpu")), Mem: int64(rapid.IntRange(0, 4000).Draw(rt, "memMB")) * 1_000_000,
 				Daemon: rapid.IntRange(0, 5).Draw(rt, "daemon") == 0, Static: rapid.IntRange(0, 5).Draw(rt, "static") == 0}
 			return Action{Op: "replacePod", Names: []string{rapid.SampledFrom(names).Draw(rt, "pod")}, Pods: []PodSpec{ps}}, "replacePod"
@@ -449,7 +484,7 @@ func (w *World) DrawAction(rt *rapid.T, p *Profile) (Action, string) {
 			if ng > 1 {
 				ng2 = rapid.IntRange(0, ng-1).Draw(rt, "newGroup")
 			}
-			ps := PodSpec{Group: ng2, Via: rapid.SampledFrom([]string{"selector", "affinity", "none"}).Draw(rt, "via"), CPU: 1, Mem: 1}
+			ps := PodSpec{Group: ng2, Via: rapid.SampledFrom(anyVias).Draw(rt, "via"), CPU: 1, Mem: 1}
 			return Action{Op: "retargetPod", Names: []string{rapid.SampledFrom(names).Draw(rt, "pod")}, Pods: []PodSpec{ps}}, "retargetPod"
 		}
 	case "resizeNode": // a node of a different instance type (mixed groups)
@@ -512,9 +547,9 @@ func (w *World) DrawAction(rt *rapid.T, p *Profile) (Action, string) {
 			case "softEdge", "hardEdge": // tainted exactly one grace period ago, +-1 s
 				d := time.Duration(0)
 				if gi := w.GroupOfNode(w.K.Nodes[n]); gi >= 0 {
-					d = w.Cfg.Groups[gi].Opts.SoftDeleteGracePeriodDuration()
+					d = Dur(w.Cfg.Groups[gi].Opts.SoftDeleteGracePeriod)
 					if class == "hardEdge" {
-						d = w.Cfg.Groups[gi].Opts.HardDeleteGracePeriodDuration()
+						d = Dur(w.Cfg.Groups[gi].Opts.HardDeleteGracePeriod)
 					}
 				}
 				val = fmt.Sprint(now - int64(d/time.Second) + int64(rapid.IntRange(-1, 1).Draw(rt, "edgeOffset")))
@@ -542,13 +577,16 @@ func (w *World) DrawAction(rt *rapid.T, p *Profile) (Action, string) {
 			if rapid.IntRange(0, 3).Draw(rt, "remove") == 0 {
 				return Action{Op: "annotate", Node: n, Flag: true}, "annotate/remove"
 			}
-			val := rapid.SampledFrom([]string{"true", "keep for debugging", "", "false", "0"}).Draw(rt, "val")
+			val := rapid.SampledFrom(AnnotationValues).Draw(rt, "val")
 			return Action{Op: "annotate", Node: n, Val: val}, "annotate/" + map[bool]string{true: "empty", false: "set"}[val == ""]
 		}
 	case "asgEdit":
 		asg := w.ASG(g)
 		min := rapid.IntRange(0, 5).Draw(rt, "min")
-		max := min + rapid.IntRange(1, 14).Draw(rt, "maxGap")
+		max := min + rapid.IntRange(0, 14).Draw(rt, "maxGap") // gap 0: an ASG pinned at min == max
+		if max == 0 {
+			max = 1
+		}
 		_ = asg
 		return Action{Op: "asgEdit", Group: g, N: min, M: max}, "asgEdit"
 	case "asgDesired":
@@ -676,12 +714,12 @@ func (w *World) DrawAction(rt *rapid.T, p *Profile) (Action, string) {
 		if len(names) > 0 {
 			n := rapid.SampledFrom(names).Draw(rt, "node")
 			o := &w.Cfg.Groups[g].Opts
-			back := o.SoftDeleteGracePeriodDuration()
+			back := Dur(o.SoftDeleteGracePeriod)
 			if rapid.Bool().Draw(rt, "pastHard") {
-				back = o.HardDeleteGracePeriodDuration()
+				back = Dur(o.HardDeleteGracePeriod)
 			}
 			back += time.Duration(rapid.IntRange(1, 90).Draw(rt, "past")) * time.Second
-			seq := []Action{{Op: "annotate", Node: n, Val: rapid.SampledFrom([]string{"keep", "true", "false", " "}).Draw(rt, "val")},
+			seq := []Action{{Op: "annotate", Node: n, Val: rapid.SampledFrom([]string{"keep", "true", "false", " ", `""`, "''"}).Draw(rt, "val")},
 				{Op: "taint", Node: n, Key: ref.TaintKey, Val: fmt.Sprint(time.Now().Add(-back).Unix()), Effect: "NoSchedule"}, {Op: "clearNode", Node: n}}
 			if k := rapid.SampledFrom([]string{"", sim.KGet, sim.KGet, sim.KUpdate, sim.KDelete}).Draw(rt, "failing"); k != "" {
 				seq = append(seq, Action{Op: "fault", Faults: []sim.Fault{{Kind: k, Nth: -1, Node: n}}})
@@ -712,7 +750,7 @@ func (w *World) DrawAction(rt *rapid.T, p *Profile) (Action, string) {
 		if w.Cfg.Groups[g].Opts.Name == controller.DefaultNodeGroup {
 			via = "none"
 		}
-		cd := w.Cfg.Groups[g].Opts.ScaleUpCoolDownPeriodDuration()
+		cd := Dur(w.Cfg.Groups[g].Opts.ScaleUpCoolDownPeriod)
 		return Action{Op: "seq", Seq: []Action{
 			{Op: "reconcile", Group: g}, {Op: "register", Group: g},
 			{Op: "advance", D: cd + time.Second},
